@@ -87,6 +87,7 @@ func c08ErrName(err error) string {
 // set when the real scanFile did not return within 30 s; the sweep is abandoned (the stuck goroutine
 // dies with the process)
 var c08ScanHung bool
+var c08ScanSlow int
 
 type c08Rec struct {
 	Flg uint32
@@ -109,6 +110,17 @@ func c08Scan(path string, data []byte) (status string, recs []c08Rec, line strin
 	if c08ScanHung {
 		return "hang", nil, "skipped (an earlier scan never returned)"
 	}
+	t0 := time.Now()
+	defer func() {
+		// a scan of a few KB takes well under a millisecond; seconds mean the loop mis-parsed a length
+		// field and allocated gigabytes (changed code under test): give up after three of those
+		if time.Since(t0) > 2*time.Second {
+			c08ScanSlow++
+			if c08ScanSlow >= 3 {
+				c08ScanHung = true
+			}
+		}
+	}()
 	done := make(chan struct{})
 	go func() {
 		defer close(done)
@@ -414,7 +426,7 @@ func c08(c *Ctx) {
 	}
 
 	if c08ScanHung {
-		c08Fail(c, "c08/scan-hang", "FileQueue.scanFile did not return within 30 s on a file of a few KB; byte-level sweep and store oracles abandoned", nil)
+		c08Fail(c, "c08/scan-hang", "FileQueue.scanFile needs seconds (or never returns) on files of a few KB; byte-level sweep and store oracles abandoned", nil)
 		return
 	}
 	// ---------- (b) direct oracles on the real store ----------
